@@ -248,10 +248,44 @@ def run(pid, tier, seed):
                     jobs.append((si, "quiet-hold-fileinfo", {"_pre": pre, "S4_VERIF_HOLD": "w%d:SendStart:0:250" % w}, None))
             jobs.append((si, "quiet-hold-all-others", {"_pre": pre, "S4_VERIF_HOLD": ",".join("w%d:WStart:0:%d" % (w, 200 + 60 * w) for w in range(n) if w != quiet)}, None))
 
+        # sources that each write their timestamps in a DIFFERENT notation (and at different places in the line): every
+        # reader works out its own notation at the same moment as the others do theirs; run over and over, freely
+        from . import c04
+        nots = {n_[0]: n_ for n_ in c04.notations()}
+        mixnames = ["rfc3339", "apache_err", "mid_line", "epoch_ms", "long_month", "compact_sp", "kv_time", "json_ts", "apache_clf", "underscore",
+                    "hawkeye_level", "iso_sp_comma_nozone"]
+        for mi in range(2 if tier == "quick" else 8):
+            n = 3 if mi % 2 == 0 else 4
+            pick = rng.sample([m_ for m_ in mixnames if m_ in nots], n)
+            files, argv, sources, meta = {}, [], [], []
+            for w, nm_ in enumerate(pick):
+                _, zk, maxfd, render = nots[nm_]
+                msgs, blob = [], b""
+                for i in range(30):
+                    sec = gen.BASE + 86400 * 40 + 7 * i + w
+                    tt = time.gmtime(sec)
+                    t_ = {"y": tt.tm_year, "m": tt.tm_mon, "d": tt.tm_mday, "H": tt.tm_hour, "M": tt.tm_min, "S": tt.tm_sec, "n": 0, "fd": 0, "off": 0,
+                          "abbr": "UTC", "epoch": sec, "z": False}
+                    line = (render(t_) + " mixed src=%s idx=%d\n" % ("WXYZ"[w], i)).encode()
+                    msgs.append(gen.Msg("WXYZ"[w], i, sec, 0, line))
+                    blob += line
+                files["x%d_%s.log" % (w, nm_)] = blob
+                argv.append("x%d_%s.log" % (w, nm_))
+                sources.append(msgs)
+                meta.append({"name": argv[-1], "kind": "log", "notation": nm_, "msgs": 30})
+            expected = b"".join(m.data for m in gen.expected_merge(sources))
+            ranks = runmodel.rank_table([m.key for s_ in sources for m in s_])
+            dts = [[ranks[m.key] for m in s_] for s_ in sources]
+            sets.append((files, argv, sources, meta, expected, ranks, dts))
+            si = len(sets) - 1
+            for rep_ in range(10 if tier == "quick" else 30):
+                jobs.append((si, "mixed-notations-free", {"_notrace": rep_ > 0}, None))
+
         def do(job):
             ji, (si, label, env, plan) = job
             files, argv, sources, meta, expected, ranks, dts = sets[si]
             env = dict(env)
+            env.pop("_notrace", None)
             pre = env.pop("_pre", [])
             colour = env.pop("_colour", False)
             perm = env.pop("_perm", None)
